@@ -107,6 +107,24 @@ judge(const unsigned char *raw, size_t n, int serial, int listed, const char *mu
                     vh_hex(H.out, H.out_n > 40 ? 40 : H.out_n));
         if (mf.error.id != ENOMEM)
             vh_fail("classification", key, "%s: error.id=%d for a frame larger than the block (expected ENOMEM)", ctx, mf.error.id);
+        /* what the peer is told: the header octets are all the receiver has looked at - a header that does not
+         * decode or whose checksum does not match gets the meta message for that, a request with a sound header the
+         * receive-overflow response, anything else nothing */
+        if (!reply_channel_down) {
+            if (v == EBADMSG || v == EILSEQ) {
+                unsigned want = v == EBADMSG ? 1u : 2u;
+                if (nf != 1 || rerr[0] || r[0].type != RT_META || r[0].meta != want)
+                    vh_fail("meta-reply", key, "%s: too large for the block and its header is damaged: expected one meta message %u, got %d frames: %s",
+                            ctx, want, nf, vh_hex(H.out, H.out_n > 40 ? 40 : H.out_n));
+                VH_COUNT("oversized frame with a damaged header");
+            } else if (f.type == RT_READ_REQ || f.type == RT_WRITE_REQ) {
+                if (nf != 1 || rerr[0] || r[0].type != f.type + 1 || r[0].meta != 4u || r[0].seq != f.seq || r[0].addr != f.addr)
+                    vh_fail("error-response", key, "%s: too large for the block: expected one receive-overflow response, got %d frames: %s", ctx,
+                            nf, vh_hex(H.out, H.out_n > 40 ? 40 : H.out_n));
+            } else if (H.out_n != 0) {
+                vh_fail("reply-to-non-request", key, "%s: too large for the block: %zu reply octets", ctx, H.out_n);
+            }
+        }
         return;
     }
     /* (ii) the receiver's classification */
@@ -393,6 +411,13 @@ mutate_frame(const struct corpus *c, vh_rng *rg, unsigned part, unsigned nparts,
             for (size_t i = c->n; i < cap + e * 7; i++)
                 big[i] = (unsigned char)vh_rand(rg);
             judge(big, cap + e * 7, 1, 1, "extended-beyond-block", c->name);
+            /* ... and the same with a damaged header on top: a flipped bit in the address (the header checksum no
+             * longer matches), a wrong version nibble (the header does not decode) */
+            big[5] ^= (unsigned char)(1u << (e & 7));
+            judge(big, cap + e * 7, 1, 1, "extended-beyond-block-header-damaged", c->name);
+            big[5] ^= (unsigned char)(1u << (e & 7));
+            big[0] ^= 0x40;
+            judge(big, cap + e * 7, 1, 1, "extended-beyond-block-header-damaged", c->name);
         }
     }
     VH_COUNT("mutation class: extension");
@@ -467,6 +492,11 @@ u_fill(uint64_t idx, void *arg)
                 raw[n + i] = (unsigned char)vh_rand(&rg);
             VH_SUB(4, e);
             judge(raw, n + e, 0, 1, n + e > cap ? "extended-beyond-block" : "extended", "block-filling write request");
+            if (n + e > cap) {
+                raw[0] ^= 0x20; /* version nibble: the header does not decode */
+                judge(raw, n + e, 0, 1, "extended-beyond-block-header-damaged", "block-filling write request");
+                raw[0] ^= 0x20;
+            }
         }
     }
     if (win)
